@@ -90,8 +90,8 @@ CHECKS["C03"] = dict(
           "the assignment table; failure leaves the store unchanged; one name never under two types; a host write is what is read next.",
     note="Host storers violating the Storer contract are outside the claim. Strings bounded to 2 bytes; doubles unrestricted.",
     instances=dict(
-        quick=[inst("root", "VHSetStatement", solver="cvc5", workers=12, must_reach=["failed", "succeeded", "host-write"])],
-        thorough=[inst("root", "VHSetStatement", solver="cvc5", workers=16, must_reach=["failed", "succeeded", "host-write"])]),
+        quick=[inst("root", "VHSetStatement", solver="cvc5", workers=12, must_reach=["failed", "succeeded", "host-write", "second-assignment"])],
+        thorough=[inst("root", "VHSetStatement", solver="cvc5", workers=16, must_reach=["failed", "succeeded", "host-write", "second-assignment"])]),
     assumptions=["two variables v, w each absent or of any type; strings of 0..2 arbitrary bytes; doubles unrestricted; operator code any int",
                  "host storers that violate the Storer contract are outside the claim"],
 )
